@@ -16,6 +16,8 @@ def jobs(tier):
         for shape in range(8):
             for tbuf in ((2,) if q else (1, 2, 4)):
                 js.append({"scenario": scn, "cfg": {"shape": shape, "tbuf": tbuf}, "bound": 2 if q else 3, "deadline": 100 if q else 600})
+                if shape in (1, 2, 6, 7) and (not q or scn == "c08.bd"):
+                    js.append({"scenario": scn, "cfg": {"shape": shape, "tbuf": tbuf, "cstr": 1}, "bound": 1 if q else 3, "deadline": 100 if q else 600})
     return js
 
 
